@@ -78,9 +78,10 @@ def run(chk, facts, tier):
         rets = fn.returns()
         ok = len(rets) == 2
         if ok:
-            loc = local_init(fn, 'local_key')
-            ok = loc is not None and loc.is_call('find_key') and len(loc.args()) == 2
-            r0 = [r for r in rets if is_name(ret_value(r), 'local_key')]
+            own = [d for d in fn.body.find(lambda n: n.k == 'VarDecl' and n.c) if strip_casts(d.c[0]).is_call('find_key') and len(strip_casts(d.c[0]).args()) == 2]
+            ok = len(own) == 1
+            lk = own[0].n if own else '?'
+            r0 = [r for r in rets if is_name(ret_value(r), lk)]
             ok = ok and len(r0) == 1 and any(op == '!=' and cval(o) == 0 and not isinstance(s, int) and strip_casts(s).n == 'first' for s, op, o in guard_atoms(fn, r0[0]))
             r1 = [r for r in rets if ret_value(r) is not None and ret_value(r).is_call('find_key')]
             ok = ok and len(r1) == 1 and len(ret_value(r1[0]).args()) == 3 and is_name(ret_value(r1[0]).args()[0], 'ediv') and is_name(ret_value(r1[0]).args()[1], 'rand') and strip_casts(ret_value(r1[0]).args()[2]).is_call('remote_address')
